@@ -95,7 +95,7 @@ def run_case(case):
     src, n, zeros, ties = case["src"], case["n"], case["zeros"], case["ties"]
     wspec, scale, delta, method = case["wspec"], case["scale"], case["delta"], case["method"]
     viol = []
-    base = sample(src, n, zeros, ties)
+    base = np.array(case["data"], dtype=float) if case.get("data") is not None else sample(src, n, zeros, ties)
     xs = np.sort(base)
     wref = ref_weights(wspec, xs, scale)
     results = {}
@@ -172,6 +172,7 @@ def main(ctx):
                 "{no, rounded to 0.1} x weights {None, linear, quadratic, cubic, arrays x^2, 1/(1+x), irregular} x array "
                 "scale x delta {fixed values, free} x method {lsq, wlsq}; each case fits the 4 data orders {sorted, "
                 "reversed, 2 shuffles} with array weights travelling with their observations. evaluations = fits. "
+                "Plus every sample size 5..64 and ALL multisets of 3..6 (7) observations over {0, .5, 1, 2, 3.5} with >= 3 distinct non-zero values. "
                 "Non-trivial: weights not None, or zeros, or ties present.")
     ctx.assumptions = ["plotting positions are ranks in the full sample (zeros included), zeros are left out of the regression",
                        "irregular array weights are a function of the observation's value, so tied observations share weights"]
@@ -193,5 +194,15 @@ def main(ctx):
         for wspec, delta in (("none", 2.35), ("quadratic", 2.35), ("arr_irregular", 1.0), ("quadratic", None)):
             cases.append({"src": "ew", "n": n, "zeros": n % 3 == 0 and 1 or 0, "ties": n % 2 == 0, "wspec": wspec, "scale": 7.0,
                           "delta": delta, "method": "wlsq"})
+    # ALL multisets of 3..6 (quick) / 3..7 (thorough) observations over the alphabet {0, 0.5, 1, 2, 3.5} with at least three distinct
+    # non-zero values: every pattern of ties and exact zeros in a small sample
+    alpha5 = (0.0, 0.5, 1.0, 2.0, 3.5)
+    for size in range(3, 7 if ctx.quick else 8):
+        for ms in itertools.combinations_with_replacement(alpha5, size):
+            if len(set(v for v in ms if v > 0)) < 3:
+                continue
+            for wspec, delta in (("none", 1.0), ("quadratic", 2.35), ("arr_irregular", 2.35)):
+                cases.append({"src": "alphabet", "n": size, "zeros": sum(1 for v in ms if v == 0), "ties": len(set(ms)) < size, "wspec": wspec,
+                              "scale": 1.0, "delta": delta, "method": "wlsq", "data": list(ms), "orders": ["sorted", "reversed", "shuffle1"]})
     cases.sort(key=lambda c: -c["n"])
     ctx.pmap(cases, chunksize=8, label="ewlsq")
